@@ -1,0 +1,130 @@
+//! verification hooks (cargo feature `xsg_verif`, off by default)
+//!
+//! exposes a plain-data projection of an Element tree (including its private fields) and a thread-local
+//! sink that records the steps of the parser. Nothing in here changes the behaviour of the library.
+
+use std::cell::RefCell;
+
+use crate::element::Element;
+use crate::necessity::Necessity;
+
+/// plain-data projection of an Element, children and attributes in their *internal* order
+#[derive(Clone, Debug, PartialEq)]
+pub struct View {
+    pub name: String,
+    pub text: bool,
+    pub standalone: bool,
+    pub count: u32,
+    pub position: Option<usize>,
+    /// (mandatory, name)
+    pub attributes: Vec<(bool, String)>,
+    /// (mandatory, child)
+    pub children: Vec<(bool, View)>,
+}
+
+/// one step of the parser, recorded after the state change it describes
+#[derive(Clone, Debug, PartialEq)]
+pub enum Step {
+    /// Event::Start: the counts of the mandatory children of the already known element `name`, taken before it is entered
+    Snap {
+        name: String,
+        counts: Vec<(String, u32)>,
+        check: bool,
+    },
+    /// Event::Start / Event::Empty: the element `name` was taken out of its parent (or created), `child` is its state
+    /// right before its content is read
+    Enter {
+        name: String,
+        attrs: Vec<String>,
+        empty: bool,
+        existed: bool,
+        child: View,
+    },
+    /// any reader event, recorded right before build_struct handles it; `kind` is one of Start, Empty, Text, CData,
+    /// End, Eof, Comment, Decl, PI, DocType, Err. For End and Eof `elem` is the element the current build_struct
+    /// invocation is about to return
+    Event {
+        kind: &'static str,
+        elem: Option<View>,
+    },
+    /// the element just read was put back into its parent and its optional children were tagged; `parent` is the
+    /// state of the element owning the current build_struct invocation
+    Closed { parent: View },
+}
+
+thread_local! {
+    static SINK: RefCell<Option<Vec<Step>>> = const { RefCell::new(None) };
+}
+
+/// start recording on this thread (drops whatever was recorded before)
+pub fn start() {
+    SINK.with(|s| *s.borrow_mut() = Some(Vec::new()));
+}
+
+/// stop recording on this thread and return what was recorded
+pub fn take() -> Vec<Step> {
+    SINK.with(|s| s.borrow_mut().take().unwrap_or_default())
+}
+
+/// true if a recording is running on this thread
+pub fn enabled() -> bool {
+    SINK.with(|s| s.borrow().is_some())
+}
+
+/// record one step (no-op unless `start` was called on this thread)
+pub fn emit(step: impl FnOnce() -> Step) {
+    SINK.with(|s| {
+        if let Some(v) = s.borrow_mut().as_mut() {
+            v.push(step());
+        }
+    });
+}
+
+/// deep projection of an element tree
+pub fn view<T: std::fmt::Display>(e: &Element<T>) -> View {
+    e.verif_view()
+}
+
+pub(crate) fn tagged<T, U>(n: &Necessity<T>, f: impl FnOnce(&T) -> U) -> (bool, U) {
+    match n {
+        Necessity::Mandatory(t) => (true, f(t)),
+        Necessity::Optional(t) => (false, f(t)),
+    }
+}
+
+/// record a reader event; always returns false so that it can be used as a match guard that never matches
+pub(crate) fn observe<T: std::fmt::Display>(
+    ev: &Result<quick_xml::events::Event<'_>, quick_xml::Error>,
+    root: &Element<T>,
+) -> bool {
+    use quick_xml::events::Event;
+    emit(|| {
+        let kind = match ev {
+            Ok(Event::Start(_)) => "Start",
+            Ok(Event::Empty(_)) => "Empty",
+            Ok(Event::Text(_)) => "Text",
+            Ok(Event::CData(_)) => "CData",
+            Ok(Event::End(_)) => "End",
+            Ok(Event::Eof) => "Eof",
+            Ok(Event::Comment(_)) => "Comment",
+            Ok(Event::Decl(_)) => "Decl",
+            Ok(Event::PI(_)) => "PI",
+            Ok(Event::DocType(_)) => "DocType",
+            Err(_) => "Err",
+        };
+        let elem = match ev {
+            Ok(Event::End(_)) | Ok(Event::Eof) => Some(root.verif_view()),
+            _ => None,
+        };
+        Step::Event { kind, elem }
+    });
+    false
+}
+
+/// the attribute keys of a start tag in document order (only called after all of them were read successfully)
+pub(crate) fn attr_keys(e: &quick_xml::events::BytesStart<'_>) -> Vec<String> {
+    e.attributes()
+        .flatten()
+        .map(|a| String::from_utf8_lossy(a.key.as_ref()).into_owned())
+        .collect()
+}
